@@ -112,8 +112,14 @@ def tracked_add_rules(ctx, R2="C15.R2", R3="C15.R3") -> None:
     base_add = ctx.cfn("hugr.build.dfg.DfBase.add")
     ops_calls = calls_in(add, "add_op")
     base_calls = calls_in(base_add, "add_op")
-    if not ops_calls or len(base_calls) != 1:
-        ctx.broken("add: expected an add_op call in TrackedDfg.add and exactly one in DfBase.add")
+    if len(base_calls) != 1:
+        ctx.broken("add: expected exactly one add_op call in DfBase.add")
+    if not ops_calls:
+        ctx.fail(R2, "TrackedDfg.add: node construction", file, add_o.lineno,
+                 "TrackedDfg.add does not create the node through add_op(com.op, *wires, metadata=metadata), the one construction path it shares with "
+                 "Dfg.add (arguments resolved before the node exists): created any other way, a failing index lookup leaves a half-wired node behind "
+                 "and the port count / wiring of the node may differ from the explicit builder's", add_o)
+        return
     bcall = base_calls[0]
     com = add.args.args[1].arg
     env = Env(td.module, td, {"self": sym("self"), com: sym(com), "metadata": sym("metadata")}, {sym("self"): td})
